@@ -41,3 +41,12 @@ Definition f6_want : str := [105;110;32;102;32;51;10;53].           (* "in f 3\n
 Theorem compat_refuted_F6 :
   part_check default_flags f6_want [] f6_stdout (EvalRepr f6_repr) = GW_gotwant.
 Proof. vm_compute. reflexivity. Qed.
+
+From XD Require Import Model.StdDoctest.
+(* finding F6f: under ELLIPSIS the standard matcher accepts the got b'abc' for the want b... ; xdoctest's comparison removes
+   the prefix letter from the got only and rejects *)
+Definition f6f_want : str := [98;46;46;46]%N.      (* b... *)
+Definition f6f_got : str := [98;39;97;98;99;39]%N.       (* b'abc' *)
+Theorem compat_refuted_F6f :
+  std_ellipsis_match f6f_want f6f_got = true /\ check_output default_flags f6f_got f6f_want = false.
+Proof. vm_compute. split; reflexivity. Qed.
